@@ -174,26 +174,26 @@ Diagnose ==
             ELSE IF Rec.ev = "simplify_end" THEN "simplification increased the number of nodes or edges"
             ELSE "operation not allowed here")
     ELSE IF Rec.ev \in {"merge", "smerge"} THEN
-        (IF ~(Rec.e1 \in EdgeIds(G) /\ Rec.e2 \in EdgeIds(G)) THEN "spec: merge of unknown edges"
-         ELSE IF Rec.ev = "smerge" /\ ~Mergeable(G, Rec.e1, Rec.e2, Rec.dir) THEN "spec: simplify merged a pair that is not mergeable (different operators / charges / shared node)"
-         ELSE IF Rec.ev = "merge" /\ ~CanMerge(G, Rec.e1, Rec.e2, Rec.dir) THEN "spec: merge_edges accepted a pair violating its guards"
-         ELSE IF Logged # MergeEdges(G, Rec.e1, Rec.e2, Rec.dir) THEN "spec: post-state differs from MergeEdges"
+        (IF Strict /\ (~(Rec.e1 \in EdgeIds(G) /\ Rec.e2 \in EdgeIds(G))) THEN "spec: merge of unknown edges"
+         ELSE IF Strict /\ (Rec.ev = "smerge" /\ ~Mergeable(G, Rec.e1, Rec.e2, Rec.dir)) THEN "spec: simplify merged a pair that is not mergeable (different operators / charges / shared node)"
+         ELSE IF Strict /\ (Rec.ev = "merge" /\ ~CanMerge(G, Rec.e1, Rec.e2, Rec.dir)) THEN "spec: merge_edges accepted a pair violating its guards"
+         ELSE IF Strict /\ (Logged # MergeEdges(G, Rec.e1, Rec.e2, Rec.dir)) THEN "spec: post-state differs from MergeEdges"
          ELSE IF Den(Logged) # den0 THEN "merge changed the denoted operator"
          ELSE "is_consistent disagrees or size/width grew")
     ELSE IF Rec.ev \in {"simplify_end", "add_end"} THEN
-        (IF ~Simplified(G) THEN "spec: simplify stopped although a mergeable pair is left"
+        (IF Strict /\ (~Simplified(G)) THEN "spec: simplify stopped although a mergeable pair is left"
          ELSE IF Rec.ev = "add_end" /\ GraphOfJson(Rec.h_after) # H THEN "add modified the other graph"
-         ELSE "spec: final graph differs from model or is_consistent disagrees")
+         ELSE IF Strict THEN "spec: final graph differs from model or is_consistent disagrees" ELSE "a property clause of this event failed (no specific diagnostic)")
     ELSE IF Rec.ev = "add_union" THEN
-        (IF ~(IsEnumOf(Rec.ordn, SharedNodes(G, H)) /\ IsEnumOf(Rec.orde, SharedEdges(G, H))) THEN "spec: add did not rename exactly the shared ids"
-         ELSE IF Logged # AddUnionOrd(G, H, Rec.ordn, Rec.orde) THEN "spec: union step of add differs from AddUnion"
+        (IF Strict /\ (~(IsEnumOf(Rec.ordn, SharedNodes(G, H)) /\ IsEnumOf(Rec.orde, SharedEdges(G, H)))) THEN "spec: add did not rename exactly the shared ids"
+         ELSE IF Strict /\ (Logged # AddUnionOrd(G, H, Rec.ordn, Rec.orde)) THEN "spec: union step of add differs from AddUnion"
          ELSE IF Den(Logged) # PolyAdd(den0, Den(H)) THEN "add does not denote the sum"
          ELSE "is_consistent disagrees")
-    ELSE IF Rec.ev = "flip" THEN (IF Logged # FlipGraph(G) THEN "spec: flip post-state differs" ELSE "flip does not reverse the words")
-    ELSE IF Rec.ev \in {"rename_node", "rename_edge"} THEN "spec: rename post-state differs or guard violated"
+    ELSE IF Rec.ev = "flip" THEN (IF Strict /\ (Logged # FlipGraph(G)) THEN "spec: flip post-state differs" ELSE "flip does not reverse the words")
+    ELSE IF Strict /\ (Rec.ev \in {"rename_node", "rename_edge"}) THEN "spec: rename post-state differs or guard violated"
     ELSE IF Rec.ev = "raise" THEN "exception although the guard of the call holds"
-    ELSE IF Rec.ev = "insert_chain" THEN "spec: _insert_opchain: post-state or denoted operator differs"
-    ELSE IF Rec.ev = "depths" THEN "spec: node_depth / length differ from the levels of the graph"
+    ELSE IF Strict /\ (Rec.ev = "insert_chain") THEN "spec: _insert_opchain: post-state or denoted operator differs"
+    ELSE IF Strict /\ (Rec.ev = "depths") THEN "spec: node_depth / length differ from the levels of the graph"
     ELSE IF Rec.ev = "init" THEN "initial graph inconsistent"
     ELSE "unexpected event"
 
